@@ -27,13 +27,14 @@ def specGet (o : Oracle2.St) (t : Oracle2.Txn) (k : Bytes) : Sys.Val :=
   | some v => v
   | none => Oracle2.specAt o.all t.readTs k
 
+def errStr : Sys.Err → String
+  | .ok => "ok" | .readOnly => "readonly" | .discarded => "discarded" | .emptyKey => "emptykey"
+  | .keyTooLarge => "keytoolarge" | .valueTooLarge => "valuetoolarge" | .conflict => "conflict" | .closed => "closed"
+
 def setErr (t : Oracle2.Txn) (k : Bytes) (v : Bytes) : Option String :=
-  if !t.update then some "readonly"
-  else if t.finished then some "discarded"
-  else if k.isEmpty then some "emptykey"
-  else if k.length > Consts.maxKeySize then some "keytoolarge"
-  else if v.length > Consts.maxValueSize then some "valuetoolarge"
-  else none
+  match Sys.apiSet Consts.maxKeySize Consts.maxValueSize t k v with
+  | .ok => none
+  | e => some (errStr e)
 
 def bad (d : DbSt) (msg : String) : DbSt × String := (d, "MODEL-STEP-NOT-ENABLED " ++ msg)
 
@@ -98,17 +99,19 @@ def dbStep (d : DbSt) (toks : List String) : DbSt × String :=
     | some i =>
       match s.o.txns[i]? with
       | some t =>
-        if t.finished then (d, "discarded")
-        else if t.writes.isEmpty then
+        match Sys.apiCommitPre d.closed t with
+        | some .discarded => (d, "discarded")
+        | some .ok =>
           match Sys.step s (.commitStart i) with
           | some s' => ({ d with s := s' }, "ok")
           | none => bad d "commit-empty"
-        else if d.closed then
+        | some .closed =>
           -- refused with ErrDBClosed; the deferred Discard releases the read mark
           match Sys.step s (.discard i) with
           | some s' => ({ d with s := s' }, "closed")
           | none => bad d "commit-closed"
-        else
+        | some e => (d, errStr e)
+        | none =>
           match Sys.step s (.commitStart i) with
           | some s1 =>
             match s1.inflight with
@@ -180,7 +183,7 @@ def dbStep (d : DbSt) (toks : List String) : DbSt × String :=
       ({ d with s := { s with d := d', o := o', commitMark := nts - 1, inflight := none, applied := false }, closed := false },
         toString nts)
   | ["nextts"] => (d, toString s.o.nextTs)
-  | ["closedcall"] => (d, if d.closed then "closed" else "open")
+  | ["closedcall"] => (d, match Sys.apiViewUpdate d.closed with | some e => errStr e | none => "open")
   | _ => (d, "bad-op")
 
 end Driver
